@@ -72,7 +72,7 @@ def model(ops, dl, icvn, lx):
         if sid == 'ISA':
             els = [list(e) for e in els]
             els[15] = [dl['sub']]
-            if els[11] == ['00501']:
+            if els[11] == ['00501'] and dl['rep'] is not None:
                 els[10] = [dl['rep']]
             out.append((sid, els))
             stack.append(('ISA', els[12][0]))
@@ -161,7 +161,9 @@ def check_case(case):
     except x12ref.NotX12:
         out.fail('not-an-interchange', text[:120])
         return out
-    want = {'ele': dl['ele'], 'sub': dl['sub'], 'term': dl['term'], 'rep': dl['rep'] if icvn == '00501' else None}
+    # a writer without a repetition separator of its own (built from the delimiters of a 00401 file) leaves ISA11 as it is
+    want = {'ele': dl['ele'], 'sub': dl['sub'], 'term': dl['term'],
+            'rep': (dl['rep'] if dl['rep'] is not None else parse_canon(ops[0])[1][10][0]) if icvn == '00501' else None}
     for k, v in want.items():
         if d[k] != v:
             out.fail('isa-delimiter:%s' % k, 'ISA declares %s=%r, writer was given %r' % (k, d[k], v))
@@ -386,6 +388,9 @@ def strategy(tier):
             if prefix < len(ops):
                 classes.add('closed-at-prefix')
         # keep well-nestedness of the prefix: an omitted inner trailer followed by a header at a lower level is still nested
+        if draw(st.integers(0, 7)) == 0:
+            rep = None
+            classes.add('writer-without-repetition-separator')
         return {'ops': ops, 'prefix': prefix, 'lx': lx, 'src_delims': src, 'dest': draw(st.sampled_from(['stream', 'stream', 'stream', 'path'])),
                 'via_xml': draw(st.integers(0, 6)) == 0,
                 'delims': {'term': term, 'ele': ele, 'sub': sub, 'rep': rep, 'eol': eol},
